@@ -50,10 +50,15 @@ check("C12",
       "slice_slices_and_integers -> SliceSlicesIntegers.chunks/_layer is executed symbolically on a fake input node and the "
       "emitted key grid, per-block getitem slices and block order are compared block-locally with the NumPy meaning of the "
       "index (reference view model); IndexError iff NumPy raises. Block counts (<=3 quick, <=4 thorough), steps and index "
-      "kinds are enumerated.",
-      "Trusted: z3, symx shims (witness-replayed each run), the slice/view reference model. Outside (not decided): integer "
-      "lists/arrays, boolean masks, dask-array indices, vindex, .blocks, unknown chunk sizes -- their planners are NumPy "
-      "code on data-dependent indices.",
+      "kinds are enumerated.  Also end to end, through Array.__getitem__ / .vindex, the repository's optimizer, layers and the "
+      "finalize step of compute(): every catalogue program with an index in it -- slices over every pushdown target, chains "
+      "x[a:b][c:d] and x[a::2][b:c], concrete integer lists (take/Shuffle), x.vindex with two index arrays on 3-d/4-d inputs "
+      "(entries enumerated by solver-driven forking, other axes' sizes symbolic) -- equals NumPy's meaning at a skolem "
+      "position; the .vindex bounds guard on symbolic ints; unsupported forms (dask int array next to a list/ndarray, two "
+      "lists) raise NotImplementedError.",
+      "Trusted: z3, symx shims (witness-replayed each run), the slice/view reference model, symx.sarr's NumPy indexing "
+      "(validated against NumPy). Outside (not decided): boolean masks, values selected through dask-array indices, .blocks, "
+      "unknown chunk sizes -- their planners are NumPy code on data-dependent indices.",
       "DESIGN.md 6 C12")
 
 check("C14",
@@ -61,9 +66,13 @@ check("C14",
       "the crosswalk (cumdims_label/_breakpoints/_intersect_1d/old_to_new/intersect_chunks) covers every new block exactly "
       "once in order with in-bounds pieces; the real _compute_rechunk task layer has identity provenance and a closed key "
       "grid; the Rechunk pushdown rewrites through slice / concatenate / transpose / expand_dims and "
-      "FromArray._accept_rechunk keep the requested chunks and identity provenance.",
+      "FromArray._accept_rechunk keep the requested chunks and identity provenance; x.rechunk(spec).chunks equals the "
+      "normalised spec for int/-1/tuple/dict/'auto' specs; and every catalogue program with a rechunk in it (over elemwise "
+      "with/without keyword arguments and explicit dtype, transpose, concatenate, expand_dims, slices, another rechunk) is "
+      "materialized by the repository's pipeline with optimization on and off: blocks have the requested sizes and the values "
+      "are those of the un-rechunked program.",
       "Trusted: z3, symx shims, recorders standing in for expression constructors (listed in evidence.stubs). Outside: "
-      "balance=True, 'auto'/byte specs (C16), p2p, the planner (C15), elemwise pushdown glue, more blocks than the bound.",
+      "balance=True (dropped inside pushdowns, restored by the root pin), p2p, the planner (C15), more blocks than the bound.",
       "DESIGN.md 6 C14")
 
 check("C15",
@@ -71,7 +80,8 @@ check("C15",
       "divide_to_width, merge_to_number, _bound_degree, estimate_graph_size) under a dask.config stub whose threshold and "
       "chunk-size are symbolic: every plan is a non-empty list of positive chunkings with the old per-axis sums ending in "
       "the target, every step's largest block is within max(limit/itemsize, largest old, largest new), internal asserts "
-      "never fire. 1-D and 2-D with small block counts; chunk sizes bounded (products are nonlinear and log/pow concretise).",
+      "never fire. 1-D and 2-D with small block counts, and 3-D arrays with a zero-length axis; chunk sizes bounded (products "
+      "are nonlinear and log/pow concretise).",
       "Trusted: z3 (QF_NIA within small bounds), symx shims, exact-rational float model. Bounded: sizes 1..4 (quick) / 1..6 "
       "(thorough), threshold 1..4/1..8, limit 1..16/1..64, degree-limit enumerated. Outside: larger sizes/ranks, float rounding.",
       "DESIGN.md 6 C15")
@@ -151,44 +161,54 @@ check("C19",
       "_sliding_window_block_total, _moving_window_banded_reduce incl. counts/min_count/NaN masking, _cum_tail, "
       "_prefixscan_*); running sums are terms over an uninterpreted prefix function of the source, so equality with the NumPy "
       "definition at a skolem position holds for every data iff the combined pieces tile the window/prefix exactly.  Also: "
-      "exact key grid, advertised block shapes.",
+      "exact key grid, advertised block shapes; and the public sliding_window_view end to end -- the view alone (also two "
+      "windows on one axis) and view.sum(-1) with the real SlidingWindowView._simplify_up choosing the overlap plan or the "
+      "native kernels per path -- against the NumPy definition.",
       "Trusted: z3, symx shims, symx.sarr scan model (accumulate/reduce of views and concatenations of views), exact reals. "
       "The tiling argument extends the verdict from add to the other reducers that share the kernel code path (stated, not "
-      "separately discharged). Outside: 'nearest' and constant-value boundaries, asymmetric depths, diff/gradient, "
-      "sliding_window_view alone, var, float rounding.",
+      "separately discharged). Outside: 'nearest' and constant-value boundaries, diff/gradient, var, float rounding.",
       "DESIGN.md 6 C19",
       technique="bounded symbolic execution of the repo's layers and block kernels on symbolic arrays (symx) + z3 SMT (QF_UFLIRA)")
 
 check("C18",
-      "Solver-decided in two parts. (a) Tree shape: the real _build_tree_reduce_expr/_normalize_split_every/"
+      "Solver-decided in three parts. (a) Tree shape: the real _build_tree_reduce_expr/_normalize_split_every/"
       "PartialReduce.chunks/_layer build the reduction tree over a symbolic array (1..9/16 blocks, split_every 2..5/16, "
       "symbolic chunk sizes, rank <= 2); the graph is executed on symbolic arrays and equals the sum over the whole axis at a "
       "skolem position for every chunk-size assignment; the reduced axis ends with one block, every partial block is used "
       "exactly once. (b) Combine algebra: the real mean_*/moment_* (orders 2-4, ddof 0/1)/arg_* chunk-combine-aggregate "
       "functions run on object arrays of symbolic reals; for every data vector the tree result equals the definition (mean, "
-      "central moments, first arg-extremum including ties) for every enumerated grouping and tree shape.",
-      "Trusted: z3 (QF_UFLIRA for (a), QF_NRA for (b)), symx shims, exact reals (the property's floating tolerance clause is "
-      "not decided), dtype=object code path for (b). Outside: nan-variants, topk/percentile, multi-axis PartialReduce, dtype "
-      "promotion, slice-through-reduction (rewrite; see C02).",
+      "central moments, first arg-extremum including ties) for every enumerated grouping and tree shape. (c) The public "
+      "min/max and nanargmin/nanargmax: the functions they wire into reduction()/arg_reduction(), the tree the real lowering "
+      "builds and the real kernels, executed on object-array blocks of symbolic reals with concrete chunk sizes (zero-length "
+      "chunks, whole tree groups empty) and concrete NaN placements; the result bounds and belongs to the data / is the first "
+      "extremum among the non-NaN entries of each slice.",
+      "Trusted: z3 (QF_UFLIRA for (a), QF_NRA for (b), QF_LRA for (c)), symx shims, exact reals (the property's floating "
+      "tolerance clause is not decided), dtype=object code path for (b),(c). Outside: topk/percentile/ptp/average, dtype "
+      "promotion; slice-through-reduction is a rewrite (C02).",
       "DESIGN.md 6 C18")
 
 check("C11",
       "Solver-decided for the assignment arithmetic: the real setitem_array_expr / parse_and_validate_assignment / "
       "parse_assignment_indices (via the real normalize_index) run on 1-D/2-D arrays with symbolic chunk sizes and symbolic, "
       "unbounded slice bounds and integer indices (steps +-1..2/3, every None-pattern; values of exact shape, length-1 axes, "
-      "scalar, trailing-axes only); the emitted graph (setitem on touched blocks, aliases elsewhere) is executed on symbolic "
-      "arrays with NumPy assignment semantics and the assembled result equals, at a skolem position, NumPy's result of the same "
+      "scalar, trailing-axes only; plain and masked); the emitted graph (setitem on touched blocks, aliases elsewhere) is "
+      "executed with the repository's own setitem chunk function on a shared-buffer model of the blocks (copy() private, "
+      "view()/masked_array(copy=False) aliases, a write into a received block or an alias is a failed obligation) and the "
+      "assembled result equals, at a skolem position, NumPy's result of the same "
       "assignment (selected positions hold the broadcast value element of the right rank, reversed for negative steps; all "
-      "other positions keep x); IndexError iff an integer is out of range; no spurious ValueError.",
-      "Trusted: z3, symx shims, mutable symbolic-array model of x[idx] = v. NOT decided (stated): that previously derived "
-      "collections keep their value, out=, compute_chunk_sizes, that source buffers are not modified (object identity / "
-      "aliasing of NumPy buffers inside kernels: no arithmetic to encode), array/boolean/dask keys.",
+      "other positions keep x); IndexError iff an integer is out of range; no spurious ValueError.  _elemwise_handle_where "
+      "(ufunc where=, out=x) yields where(mask, a+b, x) without writing into x's block, owned or not.  Writing only private "
+      "copies is what keeps earlier slices/copies of x and the source arrays unchanged.",
+      "Trusted: z3, symx shims, mutable symbolic-array model of x[idx] = v, the shared-buffer model (which NumPy calls alias "
+      "and which copy is written from NumPy's documentation). NOT decided (stated): compute_chunk_sizes, the collection-level "
+      "bookkeeping of out= (handle_out), mask propagation of masked values, array/boolean/dask keys.",
       "DESIGN.md 6 C11")
 
-CAT = ("an enumerated catalogue of ~30 programs (sources, transpose, expand_dims, broadcast_to, basic slices incl. newaxis and "
-       "negative steps, rechunk, element-wise with aligned / unaligned / broadcast operands and shared subtrees, concatenate, "
-       "stack, and two-level compositions such as (x+y)[a:b], x.T[a:b,i], concatenate(...)[a:b], rechunk(...)[a:b], "
-       "(x+y).T) over sources with symbolic, unbounded chunk sizes, slice bounds and integer indices (block counts, ranks, "
+CAT = ("an enumerated catalogue of ~90 programs (sources incl. zero-width chunks, transpose, expand_dims, broadcast_to, basic "
+       "slices incl. newaxis and negative steps, integer-list indices, .vindex, rechunk, element-wise with aligned / unaligned / "
+       "broadcast operands, shared subtrees, keyword arguments and explicit dtype, generic blockwise, concatenate, stack, arange, "
+       "diag, sum, sliding_window_view, and compositions: a slice and a rechunk over every pushdown target, chained slices, "
+       "nested transposes) over sources with symbolic, unbounded chunk sizes, slice bounds and integer indices (block counts, ranks, "
        "steps concrete)")
 TCAT = "bounded symbolic execution of the repo's own optimizer pipeline and layers on symbolic-size expression trees (symx nodes) + symbolic-array graph execution + z3 SMT (QF_UFLIA)"
 
@@ -197,10 +217,11 @@ check("C01",
       "a task graph by the repository's own _materialize (simplify -> lower -> fuse -> pin), with optimize-graph on and off; "
       "the real _layer graphs are executed on symbolic arrays whose elements are an uninterpreted function of the source "
       "position, and the assembled result equals the NumPy meaning of the program at a skolem index for every size, bound "
-      "and data.",
+      "and data; the value compute() returns (the FinalizeComputeArray layer: finalize over the root's own key nesting) is "
+      "executed and compared as well.",
       "Trusted: z3, symx (nodes: constructors/tokenize bypassed with structural names; sarr: NumPy semantics of the block "
       "kernels), dask's simplify/lower drivers run as they are. The program space is enumerated, not all compositions; "
-      "reductions/scans/windows/setitem/store/reads are C18/C19/C11/C25/C24; dtype and float rounding not modelled.",
+      "reductions/scans/windows/setitem/store/reads are C18/C19/C11/C25/C24; float rounding not modelled (dtype: label only).",
       "DESIGN.md 6 C01", technique=TCAT)
 
 check("C02",
@@ -208,29 +229,30 @@ check("C02",
       "the repository's _simplify_down/_simplify_up (slice/rechunk pushdowns with their sharing gates), lower_completely "
       "over _lower (chunk unification, rechunk-into-IO), optimize_blockwise_fusion_array -- and the raw, lowered and fused "
       "forms are each executed from their real layers; all equal the NumPy meaning (hence each other) at a skolem index, with "
-      "the advertised block shapes; fused tasks run through dask's Task.fuse sub-graphs, so each member reads the block "
+      "the advertised block shapes and dtype; fused tasks run through dask's Task.fuse sub-graphs, so each member reads the block "
       "FusedBlockwise._compute_block_ids chose.",
       "Trusted: as C01. Which rewrites fire is whatever the real optimizer does on each path (observed trees are recorded as "
-      "witnesses). Outside: rewrites not reachable from the catalogue (shuffle pushdown, reshape, sliding-window "
-      "substitution -> C19, reductions -> C18), dtype.",
+      "witnesses). Outside: rewrites not reachable from the catalogue (reshape, reductions other than sum -> C18); computed "
+      "dtypes (only the advertised dtype of each form is compared).",
       "DESIGN.md 6 C02", technique=TCAT)
 
 check("C03",
       "Solver-decided for " + CAT + ": the advertised shape equals NumPy's shape of the program, and in the graph produced by "
       "the repository's own _materialize (optimize-graph on and off) the block at every block index has exactly the size "
-      "given by the original node's .chunks on every axis -- whatever layout the optimizer chose internally (the bridge back "
+      "given by the original node's .chunks on every axis, and the materialized tree advertises the original dtype -- whatever layout the optimizer chose internally (the bridge back "
       "to advertised chunks is part of the executed code).",
-      "Trusted: as C01. Outside: dtype (a seeded dtype-only change is not detected), unknown (nan) sizes, classes outside "
-      "the catalogue (e.g. diag, reshape, reductions' chunks are C18).",
+      "Trusted: as C01. Outside: the dtype of computed blocks (values are exact reals), unknown (nan) sizes, classes outside "
+      "the catalogue (e.g. reshape; reductions' chunks are C18).",
       "DESIGN.md 6 C03", technique=TCAT)
 
 check("C04",
       "Solver-decided for " + CAT + ": the graph from the repository's own _materialize (optimize-graph on and off) is rooted "
       "at the collection's original name, defines exactly the (name, *block index) grid of the advertised block structure, "
       "every key referenced while executing every block is defined (closed), no task depends on itself and no dependency "
-      "cycle is met.",
-      "Trusted: as C01; names are structural digests standing in for content hashes. Outside: Array._cached_dask_keys / "
-      "in-place expression replacement on the collection object, FromGraph/persist, cross-collection graph merging.",
+      "cycle is met; the Array object's __dask_keys__()/_lowered_expr agree with that grid before and after an in-place "
+      "expression replacement.",
+      "Trusted: as C01; names are structural digests standing in for content hashes. Outside: FromGraph/persist, "
+      "cross-collection graph merging.",
       "DESIGN.md 6 C04", technique=TCAT)
 
 check("C08",
@@ -272,7 +294,7 @@ def main():
                       kind_free_text="proxy-based symbolic executor for Python function objects over z3 (path enumeration by re-execution, solver-decided obligations, concrete replay)")],
         checks=[CHECKS[k] for k in sorted(CHECKS)],
         notes="All checks: ./check <ID> [--tier quick|thorough]; exit 0 pass, 1 VIOLATION, 2 inconclusive/harness error. "
-              "Fix commits in /repo: 15fbc37 (normalize_slice), bfce058 (_bound_degree budget), 82ae11e (normalize_chunks negatives), 5b1d580 (no-op rechunk lowering with balance=True), 9952173 (assignment through an empty reversed slice), 0adac22 (moment_combine empty blocks), f45e2be (split_every dict < 2), 99be851 (arg-reduction tie order over all axes), 1041dc1 (reversed slices over zero-width chunks), 2ddac4e (degree pass budget for 1-d rechunks).",
+              "Fix commits in /repo: 15fbc37 (normalize_slice), bfce058 (_bound_degree budget), 82ae11e (normalize_chunks negatives), 5b1d580 (no-op rechunk lowering with balance=True), 9952173 (assignment through an empty reversed slice), 0adac22 (moment_combine empty blocks), f45e2be (split_every dict < 2), 99be851 (arg-reduction tie order over all axes), 1041dc1 (reversed slices over zero-width chunks), 2ddac4e (degree pass budget for 1-d rechunks), a3f6b80 (VIndexArray nested output keys).",
         not_applicable=na,
     )
     json.dump(m, open("MANIFEST.json", "w"), indent=1)
